@@ -551,7 +551,9 @@ def _env_source(e):
     if norm_text(e) == 'os.environ':
         return 'os.environ'
     if isinstance(e, ast.Call) and norm_text(e.func) == 'cfg.items' and e.args and \
-            isinstance(e.args[0], ast.Constant) and not e.keywords:
+            isinstance(e.args[0], ast.Constant) and \
+            all(k.arg == 'noreplace' and astq.const_value(k.value, None) is False
+                for k in e.keywords):
         return '[%s]' % e.args[0].value
     return None
 
